@@ -89,16 +89,23 @@ Definition transit_allb (sp : oracle) (c : compiled) : bool :=
                                       | None => false
                                       end) (c_rts c)) (c_nis c).
 
+(* the members of the endpoint enumeration are pairwise distinct (so a row selector denotes one interface) *)
+Definition enum_names_nodupb (c : compiled) : bool :=
+  let names := map (fun n => snake_to_camel (enum_name n)) (c_nis c) in
+  nodupb str_eqb names && negb (existsb (str_eqb "NumEndpoints") names).
+
 (* the hypotheses of C09_model_tree (ID) / C09_hw_tree_acyclic_src (SRC), in the order: tree certificate
    (breadth-first levels), routing by tables or source routes, transit (ID) / first hops (SRC; req, rsp),
-   names (req, rsp), single attachment, typed links, degrees, attachment to routers (req, rsp) *)
+   names (req, rsp), single attachment, typed links, degrees, attachment to routers (req, rsp), distinct enumeration
+   names (SRC: a row selector denotes one interface) *)
 Definition tree_conditions (sp : oracle) (d : desc) : res (list bool) :=
   do g <- build d; do c <- compile d g;
   if tree_certb g (levels g) then
     Ok [true; match d_algo d with XY => false | _ => true end;
         match d_algo d with SRC => first_hopb sp g c Req && first_hopb sp g c Rsp | _ => transit_allb sp c end;
         names_sepb g Req; names_sepb g Rsp;
-        single_attachb g c; links_typedb g c; degrees_fitb c; attachedb c Req; attachedb c Rsp]
+        single_attachb g c; links_typedb g c; degrees_fitb c; attachedb c Req; attachedb c Rsp;
+        match d_algo d with SRC => enum_names_nodupb c | _ => true end]
   else Ok [false].
 
 (* the hypotheses of the hardware-level theorems C02_hw_delivered_nx / C03_hw_delivered_nx / C14_hw_shortest_nx and of
@@ -113,3 +120,4 @@ Definition side_conditions (sp : oracle) (d : desc) : res (list bool) :=
       | SRC => first_hopb sp g c Req && first_hopb sp g c Rsp
       | XY => true
       end].
+
